@@ -174,7 +174,13 @@ pub fn rand_system(rng: &mut Rng, tiny: bool) -> Polytope {
         rows.push((vec![0.0; n], 1.0));
     }
     let m = rows.len();
-    let mut mat = Array2::zeros((m, n));
+    // a quarter of the systems are stored column-major (same matrix, different memory layout)
+    let mut mat = if rng.chance(1, 4) {
+        use ndarray::ShapeBuilder;
+        Array2::zeros((m, n).f())
+    } else {
+        Array2::zeros((m, n))
+    };
     let mut bias = Array1::zeros(m);
     for (i, (r, b)) in rows.iter().enumerate() {
         for j in 0..n {
